@@ -57,6 +57,9 @@ def check_model(rep, drv, gen, rng, m, text, c, npts=3, fixed_points=None):
     structural_ok = v1.get("valid") and v2.get("valid")
     pipeline.check_instance(rep, v1, text, "rhs")
     pipeline.check_instance(rep, v2, text, "named")
+    if family.mirror_issue(c, text) is None:
+        pipeline.check_mirror_function(rep, drv, text, "rhs", False, "tsp", fns["rhs"]["args"], rb)
+        pipeline.check_mirror_function(rep, drv, text, "monitor", False, "tsp", fns["monitor_values"]["args"], mb)
     ns = impl.exec_module(code)
     if fixed_points is not None:
         pts, tried = [], 0
